@@ -152,7 +152,7 @@ FirstFree(f, Hs) == LET fr == {j \in DOMAIN Hs : f[Hs[j]].st = "free"} IN
 \* every library-owned pointer obtained from c
 Invalidate(m, c) == [m EXCEPT !.lib = [h \in DOMAIN @ |-> IF @[h].c = c THEN [st |-> "free", c |-> "", n |-> "", v |-> VNil] ELSE @[h]]]
 
-SettleC(S) == [S EXCEPT !.sig = "", !.err = NoErr, !.out = "", !.rv = VNil, !.hasrv = FALSE, !.cerr = NoErr, !.depth = 0, !.inloop = 0, !.locked = {}]
+SettleC(S) == [S EXCEPT !.sig = "", !.err = NoErr, !.out = "", !.rv = VNil, !.hasrv = FALSE, !.cerr = NoErr, !.depth = 0, !.inloop = 0, !.locked = {}, !.itype = NoFrame]
 
 Live(m, c) == c \in DOMAIN m.ctx /\ m.ctx[c].alive
 \* an executable / expression may be used while the symbol table it was compiled against exists
